@@ -3,6 +3,7 @@ bzip2.Writer (API-level model): the master invariant over all call sequences
 and all sink adversaries, and "no false success".
 -/
 import Compress.Proofs.BzWApiExact
+import Compress.Proofs.Bzip2RoundTrip
 
 namespace Compress.Proofs.BzWApi
 open Compress Compress.Bzip2 Compress.XFlate
@@ -207,6 +208,55 @@ theorem no_false_success (lvl : Int) (sk : Sink) (s0 : BzW) (h0 : newBzW lvl sk 
     s.done = true → ∃ out, encodeStream s.level s.acc = some out ∧ s.bw.sink.got = s.base ++ out :=
   (exact_run ops s0 (exact_new lvl sk s0 h0).1).2.2.2
 
+/-- Close changes neither the ghost record of accepted data nor the level. -/
+theorem close_frame (s : BzW) : (s.close).1.acc = s.acc ∧ (s.close).1.base = s.base ∧ (s.close).1.level = s.level := by
+  rw [close_eq]
+  by_cases hd : s.done = true
+  · rw [if_pos hd]; exact ⟨rfl, rfl, rfl⟩
+  · rw [if_neg hd]
+    by_cases he : s.err ≠ none
+    · rw [if_pos he]; exact ⟨rfl, rfl, rfl⟩
+    · rw [if_neg he]
+      have fa : s.flushBlk.acc = s.acc ∧ s.flushBlk.base = s.base := by
+        rcases flushBlk_cases s with h | h | ⟨fs, ⟨h, _⟩ | ⟨h, _⟩⟩ <;> rw [h] <;> exact ⟨rfl, rfl⟩
+      by_cases h1 : (s.flushBlk).err ≠ none
+      · rw [if_pos h1]; exact ⟨fa.1, fa.2, flushBlk_level s⟩
+      · rw [if_neg h1]
+        by_cases h2 : (s.flushBlk.script (closeFields s.flushBlk)).err ≠ none
+        · rw [if_pos h2]; exact ⟨fa.1, fa.2, flushBlk_level s⟩
+        · rw [if_neg h2]; exact ⟨fa.1, fa.2, flushBlk_level s⟩
+
+theorem write_level (s : BzW) (d : List UInt8) : (s.write d).1.level = s.level := by
+  by_cases he : s.err ≠ none
+  · unfold BzW.write; rw [if_pos he]
+  · simp only [ne_eq, Decidable.not_not] at he
+    cases hok : (BzW.writeLoop (d.length + 2) s d).2 with
+    | true => rw [write_ok_eq s d he hok]; exact writeLoop_level _ s d
+    | false => rw [write_fail_eq s d he hok]; exact writeLoop_level _ s d
+
+theorem step_level (s : BzW) (op : BzOp) : (s.step op).1.level = s.level := by
+  cases op with
+  | write d => exact write_level s d
+  | close => exact (close_frame s).2.2
+  | reset sk => rfl
+
+theorem run_level : ∀ (ops : List BzOp) (s : BzW), (BzW.run s ops).1.level = s.level
+  | [], _ => rfl
+  | op :: ops, s => by rw [BzW.run]; simp only []; rw [run_level ops, step_level]
+
+/-- **no false success, lossless form**: when the writer is `done` the sink holds, after
+    what it held when attached, a stream that the bzip2 format specification decodes to
+    exactly the accepted data. -/
+theorem done_decodes (lvl : Int) (sk : Sink) (s0 : BzW) (h0 : newBzW lvl sk = some s0) (ops : List BzOp) :
+    let s := (BzW.run s0 ops).1
+    s.done = true → ∃ out, s.bw.sink.got = s.base ++ out ∧
+      Bzip2.decode out = { out := s.acc.toArray, verdict := .ok } := by
+  intro s hd
+  obtain ⟨hinv, l1, l9⟩ := exact_new lvl sk s0 h0
+  obtain ⟨out, o1, o2⟩ := (exact_run ops s0 hinv).2.2.2 hd
+  have hl : s.level = s0.level := run_level ops s0
+  exact ⟨out, o2, Compress.Proofs.Bzip2RoundTrip.roundtrip s.level (by rw [hl]; exact ⟨l1, l9⟩) s.acc out o1⟩
+
 /-- the same, phrased on the Close call that returns nil. -/
 theorem close_nil_complete (s : BzW) (h : ExactInv s) (hc : (s.close).2 = none) :
     ∃ out, encodeStream s.level s.acc = some out ∧ (s.close).1.bw.sink.got = s.base ++ out := by
@@ -225,22 +275,7 @@ theorem close_nil_complete (s : BzW) (h : ExactInv s) (hc : (s.close).2 = none) 
           · rw [if_pos h2] at hc; exact absurd hc h2
           · rw [if_neg h2]
   obtain ⟨out, o1, o2⟩ := (exact_close s h).2.2.2 hdone
-  have hacc : (s.close).1.acc = s.acc ∧ (s.close).1.base = s.base ∧ (s.close).1.level = s.level := by
-    rw [close_eq]
-    by_cases hd : s.done = true
-    · rw [if_pos hd]; exact ⟨rfl, rfl, rfl⟩
-    · rw [if_neg hd]
-      by_cases he : s.err ≠ none
-      · rw [if_pos he]; exact ⟨rfl, rfl, rfl⟩
-      · rw [if_neg he]
-        have fa : s.flushBlk.acc = s.acc ∧ s.flushBlk.base = s.base := by
-          rcases flushBlk_cases s with h | h | ⟨fs, ⟨h, _⟩ | ⟨h, _⟩⟩ <;> rw [h] <;> exact ⟨rfl, rfl⟩
-        by_cases h1 : (s.flushBlk).err ≠ none
-        · rw [if_pos h1]; exact ⟨fa.1, fa.2, flushBlk_level s⟩
-        · rw [if_neg h1]
-          by_cases h2 : (s.flushBlk.script (closeFields s.flushBlk)).err ≠ none
-          · rw [if_pos h2]; exact ⟨fa.1, fa.2, flushBlk_level s⟩
-          · rw [if_neg h2]; exact ⟨fa.1, fa.2, flushBlk_level s⟩
+  have hacc := close_frame s
   rw [hacc.1, hacc.2.2] at o1
   rw [hacc.2.1] at o2
   exact ⟨out, o1, o2⟩
